@@ -75,6 +75,9 @@ pub enum HtlcMut {
     OutputScriptByte(u8),
     PrevoutVout,
     RedeemscriptOther,
+    /// the to-local output uses the contest delay the *other* party selected (the two delays are
+    /// easily confused: a holder HTLC tx is delayed by the counterparty-selected value and vice versa)
+    OtherDelay,
 }
 
 #[derive(Clone, Debug, Serialize, Deserialize)]
@@ -148,7 +151,7 @@ fn htlc_strat() -> impl Strategy<Value = Req> {
             6 => Just(HtlcMut::None), 2 => prop_oneof![Just(1i8), Just(-1i8)].prop_map(HtlcMut::Delay), 2 => Just(HtlcMut::RevocationKey), 2 => Just(HtlcMut::DelayedKey),
             2 => prop_oneof![Just(1i32), Just(-1i32), Just(5000i32)].prop_map(HtlcMut::OutputValue), 2 => prop_oneof![Just(1i8), Just(-1i8)].prop_map(HtlcMut::LockTime),
             2 => prop_oneof![Just(0u32), Just(1u32), Just(0xffff_ffffu32), Just(0xffff_fffdu32)].prop_map(HtlcMut::Sequence), 1 => prop_oneof![Just(1u8), Just(3u8)].prop_map(HtlcMut::Version),
-            1 => Just(HtlcMut::ExtraInput), 1 => Just(HtlcMut::ExtraOutput), 1 => any::<u8>().prop_map(HtlcMut::OutputScriptByte), 1 => Just(HtlcMut::PrevoutVout), 1 => Just(HtlcMut::RedeemscriptOther),
+            1 => Just(HtlcMut::ExtraInput), 1 => Just(HtlcMut::ExtraOutput), 1 => any::<u8>().prop_map(HtlcMut::OutputScriptByte), 1 => Just(HtlcMut::PrevoutVout), 1 => Just(HtlcMut::RedeemscriptOther), 2 => Just(HtlcMut::OtherDelay),
         ],
         any::<bool>(),
     )
@@ -448,6 +451,11 @@ impl Prop for C09 {
                     HtlcMut::None => {}
                     HtlcMut::Delay(d) => {
                         let dl = (negotiated_delay as i32 + *d as i32).max(0) as u16;
+                        tx.output[0].script_pubkey = revokeable_script(&rev, dl, &delayed).to_p2wsh();
+                        out_ws = revokeable_script(&rev, dl, &delayed);
+                    }
+                    HtlcMut::OtherDelay => {
+                        let dl = if *counterparty { chan.setup.counterparty_selected_contest_delay } else { chan.setup.holder_selected_contest_delay };
                         tx.output[0].script_pubkey = revokeable_script(&rev, dl, &delayed).to_p2wsh();
                         out_ws = revokeable_script(&rev, dl, &delayed);
                     }
